@@ -123,7 +123,7 @@ impl CoreDID {
 
   /// Validates whether a string is a valid [`DID`] method name.
   pub fn valid_method_name(value: &str) -> Result<(), Error> {
-    if !value.chars().all(is_char_method_name) {
+    if value.is_empty() || !value.chars().all(is_char_method_name) {
       return Err(Error::InvalidMethodName);
     }
     Ok(())
@@ -141,14 +141,19 @@ impl CoreDID {
     // if !value.chars().all(is_char_method_id) {
     //   return Err(Error::InvalidMethodId);
     // }
+    if value.is_empty() {
+      return Err(Error::InvalidMethodId);
+    }
     let mut chars = value.chars();
     while let Some(c) = chars.next() {
       match c {
         '%' => {
-          let digits = chars.clone().take(2).collect::<String>();
-          u8::from_str_radix(&digits, 16).map_err(|_| Error::InvalidMethodId)?;
-          chars.next();
-          chars.next();
+          // pct-encoded = "%" HEXDIG HEXDIG
+          for _ in 0..2 {
+            if !chars.next().is_some_and(|digit| digit.is_ascii_hexdigit()) {
+              return Err(Error::InvalidMethodId);
+            }
+          }
         }
         c if is_char_method_id(c) => (),
         _ => return Err(Error::InvalidMethodId),
